@@ -804,6 +804,8 @@ impl Parser {
         if let Some(lexem) = self.next_lexem() {
             if lexem != Lexem::Open && lexem != Lexem::CurlyOpen {
                 if is_boolean_function {
+                    // the brackets are optional: the lexem belongs to whatever follows
+                    self.drop_lexem();
                     return Ok(function_expr);
                 }
 
